@@ -1,6 +1,12 @@
 // ---------------------------------------------------------------------------------------------
 // L2 for the navigation handlers (C04 / C05 / C15), over the operational specs of prelude/handlers_spec.rs.
 // Needs refs_l2.rs (lemma_filter_mem, lemma_C04_d_goto_resolves_usage) and resolve_l2.rs (lemma_C02_a_never_self).
+// v3 (composition with unit uri_glue through prelude/lsp_backend_v3.rs): uri_path / path_uri are the operational specs
+// PROVED for Backend::uri_to_path / path_to_uri, so the former URI hypotheses ("URI round trip", uri_injective_on) are
+// DERIVED here from the lemmas of prelude/uri_l2.rs; what remains as hypotheses, explicitly:
+//     cache_inv(uc.m())     the uri_cache invariant (empty cache: lemma_cache_inv_initially; kept by didOpen / didChange /
+//                           didClose: unit handlers_main, lemma_*_keeps_cache_inv)
+//     is_canon(file)        the index paths the lemma speaks about are canonical (absolute, resolve to themselves)
 
 // ---- generic sequence facts ---------------------------------------------------------------------------------
 pub proof fn lemma_map_contains<A, B>(s: Seq<A>, f: spec_fn(A) -> B, y: B)
@@ -198,15 +204,36 @@ pub proof fn lemma_C15_ref_locs_well_formed(uc: UriCache, us: Seq<UseV>, od: Opt
 //@tags C15 C04
 /// "result lists contain no duplicate entries", references: IF the listed usages are pairwise different, carry one
 /// name (they are filed under D's name), the URI mapping is injective on their files and on D's file, and nothing
-/// is truncated (lines in 1..=2^32, columns < 2^32), THEN no location occurs twice — the head location(D) included
+/// is truncated (lines in 1..=2^32, columns < 2^32), THEN no location occurs twice -- the head location(D) included
 /// (that is what the same-line filter is for).  Every hypothesis is explicit; none is hidden.
+/// v3: "the URI mapping is injective" is no longer a hypothesis.  The CORE lemma below needs injectivity only among the
+/// paths that HAVE a URI (uri_injective_on_some of prelude/uri_l2.rs; the listed usages and D all have one); the
+/// headline lemma lemma_C15_references_no_duplicates DERIVES that from cache_inv + canonicity of the index paths.
 pub open spec fn uri_injective_on(uc: UriCache, fs: Set<PV>) -> bool {
     forall|a: PV, b: PV| fs.contains(a) && fs.contains(b) && path_uri(uc, a) == path_uri(uc, b) ==> a == b
 }
 pub open spec fn same_name(us: Seq<UseV>, n: Seq<char>) -> bool { forall|i: int| 0 <= i < us.len() ==> (#[trigger] us[i]).name == n }
-pub proof fn lemma_C15_references_no_duplicates(uc: UriCache, us: Seq<UseV>, d: DefV, du: Uri, fs: Set<PV>)
+/// every path of the set is canonical (absolute, and the file system resolves it to itself or not at all)
+pub open spec fn all_canon(fs: Set<PV>) -> bool { forall|p: PV| fs.contains(p) ==> is_canon(p) }
+/// the files of the usages are canonical paths
+pub open spec fn files_canon(us: Seq<UseV>) -> bool { forall|i: int| 0 <= i < us.len() ==> is_canon((#[trigger] us[i]).file) }
+//@tags C04
+/// the former HYPOTHESIS uri_injective_on(uc, fs), in its exact shape, is a CONSEQUENCE of the cache invariant when every
+/// path of fs is canonical and has a URI (lemma_C04_uri_injective_on_exact of unit uri_glue; the exact shape also equates
+/// two paths WITHOUT a URI, hence "has a URI")
+pub proof fn lemma_C04_uri_injective_on_derived(uc: UriCache, fs: Set<PV>)
+    requires cache_inv(uc.m()), all_canon(fs), forall|p: PV| fs.contains(p) ==> path_uri(uc, p) is Some
+    ensures uri_injective_on(uc, fs)
+{
+    lemma_C04_uri_injective_on_exact(uc.m(), fs);
+    assert forall|a: PV, b: PV| fs.contains(a) && fs.contains(b) && path_uri(uc, a) == path_uri(uc, b) implies a == b by {
+        assert(op_path_to_uri(uc.m(), a) == op_path_to_uri(uc.m(), b));
+    }
+}
+/// CORE (pure sequence reasoning; the injectivity it needs is the weak one, among paths with a URI)
+pub proof fn lemma_references_no_duplicates_core(uc: UriCache, us: Seq<UseV>, d: DefV, du: Uri, fs: Set<PV>)
     requires us.no_duplicates(), same_name(us, d.name), cols_fit(us), uses_fit(us), lines_pos(us), 1 <= d.line, line_fits(d.line),
-        uri_injective_on(uc, fs), fs.contains(d.file), forall|i: int| 0 <= i < us.len() ==> fs.contains((#[trigger] us[i]).file),
+        uri_injective_on_some(uc.m(), fs), fs.contains(d.file), forall|i: int| 0 <= i < us.len() ==> fs.contains((#[trigger] us[i]).file),
         path_uri(uc, d.file) == Some(du),
     ensures (seq![def_location(du, d)] + ref_locs(uc, us, Some(d))).no_duplicates()
 {
@@ -224,10 +251,12 @@ pub proof fn lemma_C15_references_no_duplicates(uc: UriCache, us: Seq<UseV>, d: 
         let y = kept[j - 1];
         let jy = choose|m: int| 0 <= m < us.len() && us[m] == y;
         lemma_C15_use_range_exact(y);
+        assert(fs.contains(y.file) && op_path_to_uri(uc.m(), y.file) is Some);
         if i == 0 {
             // head: (D.line - 1, 0)-(D.line - 1, 0) under D's URI; y is not on D's (file, line)
             if all[0] == all[j] {
                 assert(path_uri(uc, y.file) == Some(du));
+                assert(op_path_to_uri(uc.m(), y.file) == op_path_to_uri(uc.m(), d.file));
                 assert(y.file == d.file);
                 assert(y.line == d.line);
             }
@@ -235,8 +264,10 @@ pub proof fn lemma_C15_references_no_duplicates(uc: UriCache, us: Seq<UseV>, d: 
             let x = kept[i - 1];
             let ix = choose|m: int| 0 <= m < us.len() && us[m] == x;
             lemma_C15_use_range_exact(x);
+            assert(fs.contains(x.file) && op_path_to_uri(uc.m(), x.file) is Some);
             if all[i] == all[j] {
                 assert(path_uri(uc, x.file) == path_uri(uc, y.file));
+                assert(op_path_to_uri(uc.m(), x.file) == op_path_to_uri(uc.m(), y.file));
                 assert(x.file == y.file && x.line == y.line && x.start_char == y.start_char && x.end_char == y.end_char);
                 assert(x.name == y.name);
                 assert(x == y);
@@ -244,6 +275,51 @@ pub proof fn lemma_C15_references_no_duplicates(uc: UriCache, us: Seq<UseV>, d: 
             }
         }
     }
+}
+//@tags C15 C04
+/// HEADLINE (v3): no location occurs twice in the references answer for D -- under the cache invariant and canonicity of
+/// D's file and of the usages' files (the weaker, explicit replacements of the former hypothesis `uri_injective_on`),
+/// plus the unchanged ones: pairwise different usages under one name, nothing truncated.  Injectivity of path -> URI on
+/// these paths is DERIVED: lemma_C04_uri_injective_on_canonical_set (unit uri_glue; cache_inv + U1).
+pub proof fn lemma_C15_references_no_duplicates(uc: UriCache, us: Seq<UseV>, d: DefV, du: Uri)
+    requires us.no_duplicates(), same_name(us, d.name), cols_fit(us), uses_fit(us), lines_pos(us), 1 <= d.line, line_fits(d.line),
+        cache_inv(uc.m()), is_canon(d.file), files_canon(us),
+        path_uri(uc, d.file) == Some(du),
+    ensures (seq![def_location(du, d)] + ref_locs(uc, us, Some(d))).no_duplicates()
+{
+    let fs = us.map_values(use_file()).to_set().insert(d.file);
+    assert forall|p: PV| fs.contains(p) implies is_canon(p) by {
+        if p != d.file {
+            let s = us.map_values(use_file());
+            assert(s.contains(p));
+            let i = choose|i: int| 0 <= i < s.len() && s[i] == p;
+            assert(us[i].file == p);
+        }
+    }
+    assert forall|i: int| 0 <= i < us.len() implies fs.contains((#[trigger] us[i]).file) by {
+        assert(us.map_values(use_file())[i] == us[i].file);
+    }
+    lemma_C04_uri_injective_on_canonical_set(uc.m(), fs);
+    lemma_references_no_duplicates_core(uc, us, d, du, fs);
+}
+pub open spec fn use_file() -> spec_fn(UseV) -> PV { |x: UseV| x.file }
+//@tags C15
+/// C15 "locations identify the right document" (v3, DERIVED from lemma_C15_uri_round_trip of unit uri_glue): the URI of
+/// the go-to-definition answer is one the server itself reads back as the file of the definition it selected
+pub proof fn lemma_C15_goto_answer_denotes_definition_file(v: NavV, uri: Uri, line: u32, ch: u32, d: DefV, l: Location)
+    requires cache_inv(v.uc.m()), goto_target(v, uri, line, ch) == Some(d), is_canon(d.file),
+        op_handle_goto(v, uri, line, ch) == Some(GotoDefinitionResponse::Scalar(l)),
+    ensures uri_path(l.uri) == Some(d.file)
+{
+    lemma_C15_uri_round_trip(v.uc.m(), d.file, l.uri);
+}
+//@tags C15 C04
+/// ... and so is the URI of every listed usage: it is read back as the usage's file
+pub proof fn lemma_C15_listed_usage_uri_denotes_its_file(uc: UriCache, od: Option<DefV>, x: UseV)
+    requires cache_inv(uc.m()), is_canon(x.file), listed(uc, od, x)
+    ensures uri_path(loc_fn(uc)(x).uri) == Some(x.file)
+{
+    lemma_C15_uri_round_trip(uc.m(), x.file, path_uri(uc, x.file)->0);
 }
 
 // ---- C04: code lens count and incoming calls = that same set ----------------------------------------------------
@@ -401,17 +477,21 @@ pub open spec fn wf_names_nav(defs: Map<Seq<char>, Seq<DefV>>) -> bool {
 /// C05 / C04 (positive since the repair of F-05c) — call-hierarchy incoming (and outgoing) calls work for THE definition D
 /// that preparation selected: the prepared item carries D's name, D's URI and a selection range on D's line, and the
 /// re-identification takes the definition of that name in that file ON that line.  No "first of its name in its file"
-/// hypothesis any more.  What is needed, explicitly: the URI round-trips to D's file; D is registered under its name;
+/// hypothesis any more.  What is needed, explicitly: D is registered under its name;
 /// W4 (unique_at_line: no OTHER definition at D's (file, line)); 1 <= D.line <= 2^32 (the line survives line-1 / +1).
+/// v3: "the URI round-trips to D's file" (uri_path(u) == Some(d.file)) is no longer a hypothesis: it is DERIVED
+/// (lemma_C15_uri_round_trip, unit uri_glue) from the cache invariant and the canonicity of D's file.
 pub proof fn lemma_C05_incoming_identifies_prepared_definition(v: NavV, d: DefV, i: int, u: Uri)
     requires
-        path_uri(v.uc, d.file) == Some(u), uri_path(u) == Some(d.file),               // URI round trip
+        path_uri(v.uc, d.file) == Some(u), cache_inv(v.uc.m()), is_canon(d.file),     // => URI round trip (derived)
         0 <= i < bucket(v.defs, d.name).len(), bucket(v.defs, d.name)[i] == d,         // D is registered under its name
         unique_at_line(v.defs), 1 <= d.line, line_fits(d.line),
     ensures
         item_def(v, def_item(u, d).name, def_item(u, d).uri, def_item(u, d).selection_range.start.line) == Some(d),
         op_handle_incoming(v, d.name, u, lsp_line(d.line)) == Some(in_calls(v, op_refs(v.defs, v.byfix, v.provf, d), Some(d))),
 {
+    lemma_C15_uri_round_trip(v.uc.m(), d.file, u);
+    assert(uri_path(u) == Some(d.file));
     let ds = bucket(v.defs, d.name);
     let pl = p_def_line(d.file, lsp_line(d.line) as int + 1);
     assert(pl(ds[i]));
@@ -436,10 +516,12 @@ pub proof fn lemma_C05_redefinition_in_file_is_identified_by_line(v: NavV, d1: D
     requires
         bucket(v.defs, d2.name) == seq![d1, d2], d1.file == d2.file, d1.name == d2.name, d1.line != d2.line,
         1 <= d2.line, line_fits(d2.line),
-        path_uri(v.uc, d2.file) == Some(u), uri_path(u) == Some(d2.file),
+        path_uri(v.uc, d2.file) == Some(u), cache_inv(v.uc.m()), is_canon(d2.file),   // => URI round trip (derived)
     ensures
         item_def(v, def_item(u, d2).name, def_item(u, d2).uri, def_item(u, d2).selection_range.start.line) == Some(d2),
 {
+    lemma_C15_uri_round_trip(v.uc.m(), d2.file, u);
+    assert(uri_path(u) == Some(d2.file));
     let ds = seq![d1, d2];
     assert(ds[0] == d1 && ds[1] == d2);
     lemma_first_idx(ds, p_def_line(d2.file, lsp_line(d2.line) as int + 1), 1);
@@ -475,6 +557,29 @@ pub proof fn lemma_C15_prepare_selection_range_is_name_span(u: Uri, d: DefV)
         &&& range_wf(r) <==> d.start_char <= d.end_char
     })
 {}
+
+// ---- controls for the v3 canaries: the SAME statements and proof shapes as canary_*_without_cache_inv / _without_canonicity
+// with BOTH hypotheses in place verify -- so those canaries fail because of the missing hypothesis, not for lack of proof text
+//@tags C04 C15
+pub proof fn lemma_control_references_no_duplicates_two_usages(uc: UriCache, x: UseV, y: UseV, d: DefV, du: Uri)
+    requires x != y, same_name(seq![x, y], d.name), cols_fit(seq![x, y]), uses_fit(seq![x, y]), lines_pos(seq![x, y]), 1 <= d.line, line_fits(d.line),
+        cache_inv(uc.m()), is_canon(d.file), is_canon(x.file), is_canon(y.file),
+        path_uri(uc, d.file) == Some(du),
+    ensures (seq![def_location(du, d)] + ref_locs(uc, seq![x, y], Some(d))).no_duplicates()
+{
+    let us = seq![x, y];
+    assert(us[0] == x && us[1] == y);
+    let fs = Set::<PV>::empty().insert(d.file).insert(x.file).insert(y.file);
+    lemma_C04_uri_injective_on_canonical_set(uc.m(), fs);
+    if uri_injective_on_some(uc.m(), fs) { lemma_references_no_duplicates_core(uc, us, d, du, fs); }
+}
+//@tags C05
+pub proof fn lemma_control_incoming_single_definition(v: NavV, d: DefV, u: Uri)
+    requires path_uri(v.uc, d.file) == Some(u), cache_inv(v.uc.m()), is_canon(d.file), bucket(v.defs, d.name) == seq![d], 1 <= d.line, line_fits(d.line),
+    ensures item_def(v, d.name, u, lsp_line(d.line)) == Some(d)
+{
+    lemma_C15_uri_round_trip(v.uc.m(), d.file, u);
+}
 
 // ---- vacuity guards: each of these must FAIL -------------------------------------------------------------------
 /// go-to-definition answers every request with a location
@@ -517,6 +622,45 @@ proof fn canary_references_no_duplicates_unconditionally(uc: UriCache, us: Seq<U
 {
     lemma_ref_locs_filter_map(uc, us, Some(d));
 }
+/// (v3) no duplicates WITHOUT the cache invariant (canonical index paths only): a cache that holds somebody else's URI
+/// for a usage's file makes two files share a URI.  The proof text is the honest attempt: U1 for every uncached path
+proof fn canary_references_no_duplicates_without_cache_inv(uc: UriCache, x: UseV, y: UseV, d: DefV, du: Uri)
+    requires x != y, same_name(seq![x, y], d.name), cols_fit(seq![x, y]), uses_fit(seq![x, y]), lines_pos(seq![x, y]), 1 <= d.line, line_fits(d.line),
+        is_canon(d.file), is_canon(x.file), is_canon(y.file),
+        path_uri(uc, d.file) == Some(du),
+    ensures (seq![def_location(du, d)] + ref_locs(uc, seq![x, y], Some(d))).no_duplicates()
+{
+    let us = seq![x, y];
+    assert(us[0] == x && us[1] == y);
+    let fs = Set::<PV>::empty().insert(d.file).insert(x.file).insert(y.file);
+    if !uc.m().contains_key(d.file) { axiom_U1_uri_round_trip(d.file, du); }
+    if !uc.m().contains_key(x.file) && uri_of_path(x.file) is Some { axiom_U1_uri_round_trip(x.file, uri_of_path(x.file)->0); }
+    if !uc.m().contains_key(y.file) && uri_of_path(y.file) is Some { axiom_U1_uri_round_trip(y.file, uri_of_path(y.file)->0); }
+    if uri_injective_on_some(uc.m(), fs) { lemma_references_no_duplicates_core(uc, us, d, du, fs); }
+}
+/// (v3) no duplicates WITHOUT canonicity of the usages' files (absolute paths, invariant in force): a cached canonical
+/// path and an uncached alias of it can get the same URI (lemma_C04_FACT_noncanonical_path_can_share_a_uri)
+proof fn canary_references_no_duplicates_without_canonicity(uc: UriCache, x: UseV, y: UseV, d: DefV, du: Uri)
+    requires x != y, same_name(seq![x, y], d.name), cols_fit(seq![x, y]), uses_fit(seq![x, y]), lines_pos(seq![x, y]), 1 <= d.line, line_fits(d.line),
+        cache_inv(uc.m()), is_canon(d.file), pv_is_abs(x.file), pv_is_abs(y.file),
+        path_uri(uc, d.file) == Some(du),
+    ensures (seq![def_location(du, d)] + ref_locs(uc, seq![x, y], Some(d))).no_duplicates()
+{
+    let us = seq![x, y];
+    assert(us[0] == x && us[1] == y);
+    let fs = Set::<PV>::empty().insert(d.file).insert(x.file).insert(y.file);
+    lemma_C15_uri_round_trip(uc.m(), d.file, du);
+    if !uc.m().contains_key(x.file) && uri_of_path(x.file) is Some { axiom_U1_uri_round_trip(x.file, uri_of_path(x.file)->0); }
+    if !uc.m().contains_key(y.file) && uri_of_path(y.file) is Some { axiom_U1_uri_round_trip(y.file, uri_of_path(y.file)->0); }
+    if uri_injective_on_some(uc.m(), fs) { lemma_references_no_duplicates_core(uc, us, d, du, fs); }
+}
+/// (v3) the exact old shape uri_injective_on (it also equates two paths WITHOUT a URI) from invariant + canonicity alone
+proof fn canary_uri_injective_on_without_every_path_has_a_uri(uc: UriCache, fs: Set<PV>)
+    requires cache_inv(uc.m()), all_canon(fs)
+    ensures uri_injective_on(uc, fs)
+{
+    lemma_C04_uri_injective_on_canonical_set(uc.m(), fs);
+}
 /// the code lens counts the usages carrying the name
 proof fn canary_lens_counts_usages_by_name(v: NavV, uri: Uri, d: DefV, fl: Seq<UseV>)
     requires lens_for(v, uri, d) is Some, refs_by_name_post(v.uses, d.name, fl)
@@ -539,15 +683,48 @@ proof fn canary_prepare_range_is_point(u: Uri, d: DefV)
 /// incoming calls work for the prepared definition without W4 (FALSE: an earlier registration on the same (file, line) wins)
 proof fn canary_incoming_identifies_prepared_definition(v: NavV, d: DefV, i: int, u: Uri)
     requires
-        path_uri(v.uc, d.file) == Some(u), uri_path(u) == Some(d.file),
+        path_uri(v.uc, d.file) == Some(u), cache_inv(v.uc.m()), is_canon(d.file),
         0 <= i < bucket(v.defs, d.name).len(), bucket(v.defs, d.name)[i] == d, 1 <= d.line, line_fits(d.line),
     ensures item_def(v, d.name, u, lsp_line(d.line)) == Some(d)
-{}
+{
+    lemma_C15_uri_round_trip(v.uc.m(), d.file, u);
+}
 /// ... and without the URI round trip
 proof fn canary_incoming_without_uri_round_trip(v: NavV, d: DefV, u: Uri)
     requires path_uri(v.uc, d.file) == Some(u), bucket(v.defs, d.name) == seq![d], 1 <= d.line, line_fits(d.line),
     ensures item_def(v, d.name, u, lsp_line(d.line)) == Some(d)
 {}
+/// (v3) ... with canonicity but WITHOUT the cache invariant (the cache may hold for D's file a URI of another file);
+/// honest attempt: U1 covers the uncached case only
+proof fn canary_incoming_without_cache_inv(v: NavV, d: DefV, u: Uri)
+    requires path_uri(v.uc, d.file) == Some(u), is_canon(d.file), bucket(v.defs, d.name) == seq![d], 1 <= d.line, line_fits(d.line),
+    ensures item_def(v, d.name, u, lsp_line(d.line)) == Some(d)
+{
+    if !v.uc.m().contains_key(d.file) { axiom_U1_uri_round_trip(d.file, u); }
+}
+/// (v3) ... with the cache invariant but WITHOUT canonicity of D's file (absolute only): the built URI of an alias is read
+/// back as the canonical path (lemma_C15_FACT_round_trip_of_noncanonical_path_lands_on_canonical), not as D's file
+proof fn canary_incoming_without_canonicity(v: NavV, d: DefV, u: Uri)
+    requires path_uri(v.uc, d.file) == Some(u), cache_inv(v.uc.m()), pv_is_abs(d.file), bucket(v.defs, d.name) == seq![d], 1 <= d.line, line_fits(d.line),
+    ensures item_def(v, d.name, u, lsp_line(d.line)) == Some(d)
+{
+    if !v.uc.m().contains_key(d.file) { axiom_U1_uri_round_trip(d.file, u); }
+}
+/// (v3) the go-to-definition answer denotes the definition's file without the cache invariant / without canonicity
+proof fn canary_goto_answer_denotes_file_without_cache_inv(v: NavV, uri: Uri, line: u32, ch: u32, d: DefV, l: Location)
+    requires goto_target(v, uri, line, ch) == Some(d), is_canon(d.file),
+        op_handle_goto(v, uri, line, ch) == Some(GotoDefinitionResponse::Scalar(l)),
+    ensures uri_path(l.uri) == Some(d.file)
+{
+    if !v.uc.m().contains_key(d.file) { axiom_U1_uri_round_trip(d.file, l.uri); }
+}
+proof fn canary_goto_answer_denotes_file_without_canonicity(v: NavV, uri: Uri, line: u32, ch: u32, d: DefV, l: Location)
+    requires cache_inv(v.uc.m()), goto_target(v, uri, line, ch) == Some(d), pv_is_abs(d.file),
+        op_handle_goto(v, uri, line, ch) == Some(GotoDefinitionResponse::Scalar(l)),
+    ensures uri_path(l.uri) == Some(d.file)
+{
+    if !v.uc.m().contains_key(d.file) { axiom_U1_uri_round_trip(d.file, l.uri); }
+}
 /// the pre-fix behaviour: the item's line is not consulted (the first definition of the name in the file is taken)
 proof fn canary_item_def_ignores_line(v: NavV, name: Seq<char>, u: Uri, sel_line: u32)
     requires uri_path(u) is Some
@@ -571,9 +748,22 @@ proof fn canary_hyp_incoming_first_in_file(v: NavV, d1: DefV, d2: DefV, u: Uri)
     requires
         bucket(v.defs, d2.name) == seq![d1, d2], d1.file == d2.file, d1.name == d2.name, d1.line != d2.line,
         1 <= d2.line, line_fits(d2.line),
-        path_uri(v.uc, d2.file) == Some(u), uri_path(u) == Some(d2.file),
+        path_uri(v.uc, d2.file) == Some(u), cache_inv(v.uc.m()), is_canon(d2.file),
     ensures false
-{}
+{
+    lemma_C15_uri_round_trip(v.uc.m(), d2.file, u);
+}
+/// (v3) the hypotheses of the headline no-duplicates lemma are satisfiable (must FAIL)
+proof fn canary_hyp_references_no_duplicates(uc: UriCache, us: Seq<UseV>, d: DefV, du: Uri)
+    requires us.no_duplicates(), same_name(us, d.name), cols_fit(us), uses_fit(us), lines_pos(us), 1 <= d.line, line_fits(d.line),
+        cache_inv(uc.m()), is_canon(d.file), files_canon(us), us.len() >= 2, listed(uc, Some(d), us[0]), listed(uc, Some(d), us[1]),
+        path_uri(uc, d.file) == Some(du),
+    ensures false
+{
+    lemma_C15_uri_round_trip(uc.m(), d.file, du);
+    lemma_C15_uri_round_trip(uc.m(), us[0].file, path_uri(uc, us[0].file)->0);
+    lemma_C15_uri_round_trip(uc.m(), us[1].file, path_uri(uc, us[1].file)->0);
+}
 proof fn canary_hyp_same_line_filter(v: NavV, d: DefV, e: (PV, UseV))
     requires unique_at_line(v.defs), at_line(v.defs, d.file, d.line, d), e.0 == e.1.file, e.1.name == d.name,
         resolve_usage(v.defs, v.provf, e.0, e.1) == Some(d),
